@@ -116,6 +116,18 @@ func (n *Node) MineAs(d *Deputy, parent *types.Block, time uint32, txs types.Tra
 	return b, invalid, nil
 }
 
+// MineAsHeader = Assemble + Store with a harness-built header (e.g. a chosen gas limit).
+func (n *Node) MineAsHeader(d *Deputy, header *types.Header, txs types.Transactions) (*types.Block, types.Transactions, error) {
+	b, invalid, err := n.Assemble(d, header, txs)
+	if err != nil {
+		return nil, invalid, err
+	}
+	if err := n.Store(b); err != nil {
+		return nil, invalid, fmt.Errorf("store mined block: %v", err)
+	}
+	return b, invalid, nil
+}
+
 // MineNext mines the next block on parent by the deputy whose turn it is right after the parent (first slot).
 func (n *Node) MineNext(parent *types.Block, txs types.Transactions) *types.Block {
 	h := parent.Height() + 1
